@@ -18,11 +18,11 @@ import (
 )
 
 func init() {
-	Register(&Rule{Name: "T-CMP", Floor: 100, Run: runTCmp,
+	Register(&Rule{Name: "T-CMP", Floor: 60, Run: runTCmp,
 		Doc: "Cmp orders the five classes -Inf < -finite < 0 < +finite < +Inf, compares magnitudes with ucmp in the right operand order, and Sign/IsZero/IsInf/Signbit agree with that classification"})
-	Register(&Rule{Name: "T-UNARY", Floor: 100, Run: runTUnary,
+	Register(&Rule{Name: "T-UNARY", Floor: 150, Run: runTUnary,
 		Doc: "Set, Copy, Neg, Abs, SetInf, SetMode, SetPrec, Sqrt, MantExp, SetMantExp, MinPrec, IsInt and the integer setters give the documented form, sign, accuracy and attributes for every operand class"})
-	Register(&Rule{Name: "T-CONV", Floor: 60, Run: runTConv,
+	Register(&Rule{Name: "T-CONV", Floor: 40, Run: runTConv,
 		Doc: "Int64, Uint64, Int, Rat, SetFloat64 and SetFloat dispatch on zero/infinity/NaN/sign as documented (saturation values, accuracies, ErrNaN only for NaN)"})
 }
 
